@@ -69,6 +69,10 @@ def body_request(path, framing, payload, override=None, gzipped=False, chunks=No
         hdr += "Content-Encoding: gzip\r\n"
     if framing == "cl":
         return (hdr + "Content-Length: %d\r\n\r\n" % len(payload)).encode() + payload
+    if framing == "cl-dup":         # the same length on two field lines / as a list: legal, one effective value
+        return (hdr + "Content-Length: %d\r\nContent-Length: %d\r\n\r\n" % (len(payload), len(payload))).encode() + payload
+    if framing == "cl-list":
+        return (hdr + "Content-Length: %d, %d\r\n\r\n" % (len(payload), len(payload))).encode() + payload
     out = (hdr + "Transfer-Encoding: chunked\r\n\r\n").encode()
     p = 0
     for n in chunks:
@@ -124,7 +128,7 @@ class C04(Check):
     id = "C04"
     level = "model_checking"
     rule = ("(a) header blocks of every size L-8..L+8 and 10L for max_header_size L=128, alone and after a "
-            "previous request; (b) max_body_size L=16 (and L=0 with bodies of 0, 1, 5 bytes), chunk_size 4: Content-Length bodies of L-1, L, L+1, 100L; "
+            "previous request; (b) max_body_size L=16 (and L=0 with bodies of 0, 1, 5 bytes), chunk_size 4: Content-Length bodies of L-1, L, L+1, 100L (L, L+1 also with the length repeated on two lines and as 'N, N'); "
             "chunked bodies = all compositions of totals {L-1, L, L+1, 2L} into <= 3 chunks; streaming and "
             "buffered handlers; per-request override {L/2, 2L} set in prepare(); (c) L=300 with "
             "decompress_request: gzip bodies inflating to L-1, L, L+1, 3L, 100L, also with overrides {L/2, 2L, 200L}; "
@@ -152,12 +156,17 @@ class C04(Check):
         for path in ("/s", "/b"):
             for n in (L - 1, L, L + 1, 100 * L):
                 out.append(("cl", path, None, n, None))
+            for n in (L, L + 1):
+                out.append(("cl-dup", path, None, n, None))
+                out.append(("cl-list", path, None, n, None))
             for total in (L - 1, L, L + 1, 2 * L):
                 for comp in en.compositions(total, 3):
                     out.append(("chunked", path, None, total, comp))
         for ov in (L // 2, 2 * L):
             for n in sorted({ov - 1, ov, ov + 1, L - 1, L, L + 1}):
                 out.append(("cl", "/s", ov, n, None))
+                if n in (ov, ov + 1):
+                    out.append(("cl-list", "/s", ov, n, None))
                 out.append(("chunked", "/s", ov, n, (n,)))
                 if n > 3:
                     out.append(("chunked", "/s", ov, n, (1, n - 2, 1)))
@@ -235,7 +244,7 @@ class C04(Check):
                 kw = dict(max_body_size=L, chunk_size=4)
                 plain = pattern(n)
                 wire = plain
-                data = body_request(path, "cl" if kind.startswith("cl") else "chunked", wire, ov, chunks=comp)
+                data = body_request(path, kind.split("@")[0] if kind.startswith("cl") else "chunked", wire, ov, chunks=comp)
                 limit = ov if ov is not None else L
                 must = "accept" if n <= limit else "refuse"
 
